@@ -57,6 +57,7 @@ def pr_rules(rules):
 
 
 def gen_case(rng, i):
+    w = f":w{i}"
     rules = RULESETS[i % len(RULESETS)]
     op = ["RSTREAM", "ISTREAM", "DSTREAM"][(i // len(RULESETS)) % 3]
     k = rng.random()
@@ -75,9 +76,9 @@ def gen_case(rng, i):
         ts += rng.choice([0, 1, 1, 1, 2])
         pred = rng.choice([P, P, Q, Q, R])
         pushes.append({"stream": ":s1", "s": rng.choice(SUBJ), "p": pred, "o": rng.choice(OBJ), "ts": ts})
-    text = (f"REGISTER {op} <http://out/stream> AS SELECT * FROM NAMED WINDOW :w ON :s1 [RANGE {width} STEP {slide}] "
-            "WHERE { WINDOW :w { " + " ".join(f"{tr(a)} {tr(b)} {tr(c)} ." for a, b, c in q) + " } }")
-    return {"query": text, "rules": pr_rules(rules), "mode": "single", "policy": "wait", "seed": 0, "static": "", "pushes": pushes,
+    text = (f"REGISTER {op} <http://out/stream> AS SELECT * FROM NAMED WINDOW {w} ON :s1 [RANGE {width} STEP {slide}] "
+            "WHERE { WINDOW " + w + " { " + " ".join(f"{tr(a)} {tr(b)} {tr(c)} ." for a, b, c in q) + " } }")
+    return {"query": text, "rules": pr_rules(rules), "mode": "single", "policy": "wait", "seed": 0, "static": "", "pushes": pushes, "windows": [w],
             "spec": {"op": op, "q": q, "rules": rules, "hasref": False, "ref": []}, "width": width, "slide": slide}
 
 
